@@ -93,6 +93,10 @@ def mask_from_face_indexes(
     fill_value = topology.sensible_fill_value
     data_vars = {}
 
+    # STRtree queries return indexes in an arbitrary order.
+    # Faces must be renumbered in their original order, like edges and nodes.
+    face_indexes = numpy.sort(numpy.unique(face_indexes))
+
     def new_element_indexes(size: int, indexes: numpy.ndarray) -> numpy.ma.MaskedArray:
         new_indexes = numpy.full(
             (size,), fill_value=fill_value, dtype=topology.sensible_dtype)
